@@ -173,9 +173,11 @@ def urlOk (p : Policy) (v : Bytes) : Bool :=
   | .scheme s =>
     (match p.allowURLSchemes.get? s with
      | some checks =>
+       -- the registered checks judged the URL as parsed from the input; on the output we can
+       -- re-judge only what parses again
        checks.isEmpty || (match Url.parse v with
          | some u => checks.any (· u)
-         | none => false)
+         | none => true)
      | none => p.allowURLSchemeRegexps.any (·.test s)) &&
     (!hasWsOrCtl v || s == b!"data")
   | .relative => p.allowRelativeURLs && !hasWsOrCtl v
@@ -184,7 +186,11 @@ def oracleC03 (p : Policy) (out : Bytes) : Bool :=
   !p.requireParseableURLs ||
   (tokenize out).all fun t =>
     if t.tt == .start || t.tt == .selfClosing then
-      t.attrs.all fun a => !isUrlPosition t.data a.key || urlOk p a.val
+      t.attrs.all fun a =>
+        !isUrlPosition t.data a.key ||
+        -- with a src rewriter installed a surviving src is the rewriter's result, whatever it is
+        (p.srcRewriter.isSome && a.key == b!"src") ||
+        urlOk p a.val
     else true
 
 /-! ### C06 -/
@@ -313,7 +319,7 @@ def oracleC11 (p : Policy) (out : Bytes) : Bool :=
       let blank := match target with | some v => lowerAscii v == b!"_blank" | none => false
       (!needNF || hasToken b!"nofollow" rel) &&
       (!needNR || hasToken b!"noreferrer" rel) &&
-      (!(t.data == b!"a" && ext && p.addTargetBlankToFullyQualifiedLinks) || target == some b!"_blank") &&
+      (!(t.data == b!"a" && ext && p.addTargetBlankToFullyQualifiedLinks) || blank) &&
       (!(t.data == b!"a" && anyLinkOption p && blank) || hasToken b!"noopener" rel)
 
 def oracleC12 (p : Policy) (out : Bytes) : Bool :=
